@@ -69,7 +69,7 @@ PROPS["C06"] = dict(expect_probes=["up_transition_checked", "checker_ran"], engi
 
 PROPS["SMOKE"] = dict(gomaxprocs=1, selftest_gomaxprocs=("1", "1", "1"), engine="C", runs=(4, 4), modes=[("nofault", 1.0)], race=False, level="exploration", design="", level_text="", level_note="", technique="")
 
-PROPS["C07"] = dict(expect_probes=["forward_filter_finish"], gomaxprocs=1, selftest_gomaxprocs=("1", "1", "1"), engine="C", runs=(1500, 60000), modes=[("nofault", 0.3), ("swarm", 0.7)], race=False, level="exploration", design="§6 Engine C / C07", level_text="Whole-node simulation: 1-3 client connections (each with its own cluster of 1-4 backends) send 1-5 requests through the real conn.serve / ReverseProxy / bfe_http.Transport while the scripted backends follow a per-attempt fault plan (connect refused / timed out, reset on accept, reset or close after the request, no response until the header timeout, reset mid-header / mid-body, slow bodies) and a generated HandleForward filter finishes some requests. Invariant at every scheduler step: no backend's active-connection count is negative; at node quiescence every count is zero.", level_note='Trusted: simrt/simnet, a harness accessor that reads connNum without the lock at quiescence. WebSocket/stream tunnels are not part of this check.', technique="deterministic simulation: whole-node run with scripted clients/backends on a simulated network, seeded faults and schedules, wire-level reference-parser oracles")
+PROPS["C07"] = dict(expect_probes=["forward_filter_finish", "finish_filter_finish", "response_filter_finish"], gomaxprocs=1, selftest_gomaxprocs=("1", "1", "1"), engine="C", runs=(1500, 60000), modes=[("nofault", 0.3), ("swarm", 0.7)], race=False, level="exploration", design="§6 Engine C / C07", level_text="Whole-node simulation: 1-3 client connections (each with its own cluster of 1-4 backends) send 1-5 requests through the real conn.serve / ReverseProxy / bfe_http.Transport while the scripted backends follow a per-attempt fault plan (connect refused / timed out, reset on accept, reset or close after the request, no response until the header timeout, reset mid-header / mid-body, slow bodies) and a generated HandleForward filter finishes some requests. Invariant at every scheduler step: no backend's active-connection count is negative; at node quiescence every count is zero.", level_note='Trusted: simrt/simnet, a harness accessor that reads connNum without the lock at quiescence. WebSocket/stream tunnels are not part of this check.', technique="deterministic simulation: whole-node run with scripted clients/backends on a simulated network, seeded faults and schedules, wire-level reference-parser oracles")
 
 PROPS["C08"] = dict(expect_probes=["c08_retry_checked"], gomaxprocs=1, selftest_gomaxprocs=("1", "1", "1"), engine="C", runs=(1500, 60000), modes=[("nofault", 0.3), ("swarm", 0.7)], race=False, level="exploration", design="§6 Engine C / C08", level_text='Same node simulation with one client connection: the sequence of attempts the scripted backends (and the dial policy) observe for each request is checked: a further attempt only after a connect-phase failure or for a body-less GET when RetryLevel allows it, never after body bytes reached a backend, at most 1+RetryMax+CrossRetry attempts, attempts beyond RetryMax leave the designated sub-cluster.', level_note='Trusted: simrt/simnet, attribution of attempts to requests (one request in flight per cluster; request id in the target). Error classes are produced by real wire events, not by a stub RoundTripper.', technique="deterministic simulation: whole-node run with scripted clients/backends on a simulated network, seeded faults and schedules, wire-level reference-parser oracles")
 
